@@ -57,6 +57,8 @@ ASSUMPTIONS = [
 SHRINK_KEYS = ('ops', 'records', 'clients', 'queries', 'attrs', 'msgs')
 
 SDP_HORIZON = 600.0
+# ACL fragmentation is C05's subject: large controller buffers keep big SDP answers cheap
+ACL_GEOMETRY = {'acl_data_packet_length': 1021, 'total_num_acl_data_packets': 8}
 STREAM_HORIZON = 600.0
 
 
@@ -186,9 +188,7 @@ def canon(d):
     """Canonical comparable form of a description."""
     tag = d[0]
     if tag == 'u':
-        # compared as 128-bit values: UUID.from_bytes returns the first registered equal object,
-        # so the width of a parsed UUID depends on what the process has seen before
-        return ('u', uuid128_be(d[1]).hex())
+        return ('u', uuid_width(d[1], d[2]), uuid128_be(d[1]).hex())
     if tag in ('i', 's'):
         return (tag, d[2], d[1])
     if tag == 't':
@@ -209,7 +209,7 @@ def canon_de(de):
     t = de.type
     if t == DataElement.UUID:
         raw = de.value.uuid_bytes
-        return ('u', le_to_128_be(raw).hex())
+        return ('u', len(raw), le_to_128_be(raw).hex())
     if t == DataElement.UNSIGNED_INTEGER:
         return ('i', de.value_size, de.value)
     if t == DataElement.SIGNED_INTEGER:
@@ -571,8 +571,9 @@ def _pad(case, pad) -> None:
     k = min(k, limit)
     c = case['clients'][0]
     cap = c['mtu'] - 9
-    if cap * k > 150_000:
-        k = max(1, 150_000 // cap)
+    budget = 131_100 if c['mtu'] >= 65532 else 70_000  # keeps one case in the tens of milliseconds
+    if cap * k > budget:
+        k = max(1, budget // cap)
     if k == limit:
         delta = min(delta, 0)
     target = k * cap + delta
@@ -616,6 +617,10 @@ def continuation_limit() -> int:
 
 
 # -- one SDP case --------------------------------------------------------------------
+class _Results(list):
+    loop_errors: list = []
+
+
 def run_sdp_case(ctx, case) -> None:
     from bumble import sdp
     from bumble.sdp import ServiceAttribute
@@ -629,7 +634,7 @@ def run_sdp_case(ctx, case) -> None:
     multi = 'multi' if n > 1 else 'single'
     loop = vloop.new_loop()
     loop.max_iterations = 3_000_000
-    results: list = [[None] * len(c['queries']) for c in clients]
+    results: list = _Results([None] * len(c['queries']) for c in clients)
     state: dict = {'phase': 'setup', 'max_pdu_over': 0}
 
     def fail(sig, what):
@@ -637,7 +642,7 @@ def run_sdp_case(ctx, case) -> None:
 
     async def main():
         delays = [list(case.get('server_delays') or [])] + [list(c.get('delays') or []) for c in clients]
-        w = world.World(n + 1, classic=True, delays=[d or [0] for d in delays])
+        w = world.World(n + 1, classic=True, delays=[d or [0] for d in delays], geometry=ACL_GEOMETRY)
         await w.power_on()
         server_dev = w[0].device
         server_dev.l2cap_channel_manager.servers[sdp.SDP_PSM].spec.mtu = int(case['server_mtu'])
@@ -702,6 +707,7 @@ def run_sdp_case(ctx, case) -> None:
             outcome = 'budget'
         labels = {f'sdp:clients:{n}'}
         nontrivial = n >= 2
+        results.loop_errors = list(loop.errors)
         if state['phase'] == 'setup':
             if outcome == 'budget':
                 labels.add('sdp:iteration_budget_hit')
@@ -755,7 +761,13 @@ def _judge_sdp(ctx, fail, multi, outcome, i, j, q, kind, exp, results, clients, 
     if r is None:
         if outcome == 'budget':
             return False
-        fail(f'sdp/no_answer/{multi}', f'{who}: never completed ({outcome}): the response did not arrive')
+        site, err = _loop_error_site(results)
+        what = f'{who}: never completed ({outcome}): the response did not arrive' + (f'; {err}' if err else '')
+        if site and site.split(':')[0] in ('controller.py', 'link.py', 'host.py', 'hci.py'):
+            # the carrier (virtual controller / HCI) lost the PDU, not SDP
+            fail(f'sdp/no_answer/carrier/{site}', what)
+        else:
+            fail(f'sdp/no_answer/{multi}', what)
         return True
     if r[0] == 'exc':
         if kind == 'ga' and exp is None:
@@ -820,6 +832,23 @@ def _judge_sdp(ctx, fail, multi, outcome, i, j, q, kind, exp, results, clients, 
          f'(records matching EVERY UUID, selected attributes in ascending id order)'
          + ('; equals another client\'s answer' if other_clients_answer() else ''))
     return True
+
+
+def _loop_error_site(results):
+    """(innermost bumble frame, text) of the first exception that escaped a loop callback."""
+    errors = getattr(results, 'loop_errors', None) or []
+    for e in errors:
+        exc = e.get('exception')
+        if exc is None:
+            continue
+        site, tb = '?', exc.__traceback__
+        while tb is not None:
+            fn = tb.tb_frame.f_code.co_filename
+            if '/bumble/' in fn:
+                site = f'{fn.split("/bumble/")[-1]}:{tb.tb_frame.f_code.co_name}'
+            tb = tb.tb_next
+        return site, f'a loop callback raised {exc!r} at {site}'
+    return None, None
 
 
 def _same(kind, exp, got) -> bool:
@@ -1279,8 +1308,16 @@ def _judge_av(fail, proto, expected, delivered, fault, what_fault, situation, ex
 
 
 # -- AVCTP ---------------------------------------------------------------------------
-def avctp_pdus(m, mtu: int) -> list:
-    """The peer's sender, by the AVCTP specification (6.1 packet formats)."""
+SPEC_LAYOUT = 'spec'
+LEGACY_LAYOUT = 'pid_in_every_packet'
+
+
+def avctp_pdus(m, mtu: int, layout: str = SPEC_LAYOUT) -> list:
+    """The peer's sender, by the AVCTP specification (6.1 packet formats).
+
+    layout 'pid_in_every_packet' (continue/end packets repeat the PID) is NOT the specification's;
+    it is only used behind the known finding F19d so that the remaining oracles stay exercised."""
+    pid_again = struct.pack('>H', m['pid']) if layout == LEGACY_LAYOUT else b''
     payload = payload_bytes(m['len'], m['seed'])
     low = (m['cr'] << 1) | m['ipid']
     chunks = m.get('chunks')
@@ -1295,10 +1332,10 @@ def avctp_pdus(m, mtu: int) -> list:
         if k == 0:
             p = bytes([m['label'] << 4 | 1 << 2 | low, len(chunks)]) + struct.pack('>H', m['pid']) + data
         elif k < len(chunks) - 1:
-            p = bytes([m['label'] << 4 | 2 << 2 | low]) + data
+            p = bytes([m['label'] << 4 | 2 << 2 | low]) + pid_again + data
         else:
-            p = bytes([m['label'] << 4 | 3 << 2 | low]) + data
-        if len(p) > mtu:
+            p = bytes([m['label'] << 4 | 3 << 2 | low]) + pid_again + data
+        if len(p) > mtu + len(pid_again):
             raise HarnessError(f'harness sender exceeds MTU: {len(p)} > {mtu}')
         out.append(p)
     return out
@@ -1310,6 +1347,8 @@ def run_avctp_case(ctx, case) -> None:
     mtu = case['mtu']
     msgs = case['msgs']
     fault = case.get('fault') if len(case['msgs']) >= 3 else None
+    layout = case.get('layout', SPEC_LAYOUT)
+    proto = 'avctp' if layout == SPEC_LAYOUT else f'avctp_{layout}'
     loop = vloop.new_loop()
     try:
         delivered: list = []
@@ -1326,7 +1365,7 @@ def run_avctp_case(ctx, case) -> None:
 
         expected, per_msg_pdus = [], []
         for m in msgs:
-            pdus = avctp_pdus(m, mtu)
+            pdus = avctp_pdus(m, mtu, layout)
             per_msg_pdus.append(pdus)
             expected.append((m['label'], m['cr'], m['ipid'], m['pid'], payload_bytes(m['len'], m['seed'])))
             if len(pdus) >= 2:
@@ -1340,6 +1379,9 @@ def run_avctp_case(ctx, case) -> None:
                     labels.add('avctp:255_packets')
             else:
                 labels.add('avctp:single')
+        if layout != SPEC_LAYOUT and 'avctp:fragmented' in labels:
+            ctx.exclude('avctp: spec-conformant continue/end packets (no PID) replaced by the PID-in-every-packet '
+                        'layout the implementation expects (known finding F19d)')
         what_fault, situation = '', ''
         stream = []
         for k, pdus in enumerate(per_msg_pdus):
@@ -1359,14 +1401,14 @@ def run_avctp_case(ctx, case) -> None:
             good_excs = _feed(assembler, good)
             good_expected = [expected[0]] + expected[2:]
             if delivered != good_expected:
-                _judge_av(fail, 'avctp', good_expected, list(delivered), None, '', '', good_excs, mtu)
+                _judge_av(fail, proto, good_expected, list(delivered), None, '', '', good_excs, mtu)
                 fault = None
                 stream = []
             del delivered[:]
             assembler = avctp.MessageAssembler(on_message)
         if stream:
             excs = _feed(assembler, stream)
-            _judge_av(fail, 'avctp', expected, delivered, fault, what_fault, situation, excs, mtu)
+            _judge_av(fail, proto, expected, delivered, fault, what_fault, situation, excs, mtu)
         ctx.case(('avctp', case), nontrivial, labels,
                  sample={'avctp': {'mtu': mtu, 'lens': [m['len'] for m in msgs],
                                    'packets': [len(p) for p in per_msg_pdus], 'fault': fault}})
@@ -1500,7 +1542,7 @@ def run_stream_case(ctx, case) -> None:
 
     async def main():
         delays = list(case.get('delays') or []) or [0]
-        w = world.World(2, classic=True, delays=[delays, delays])
+        w = world.World(2, classic=True, delays=[delays, delays], geometry=ACL_GEOMETRY)
         await w.power_on()
         listener = avdtp.Listener.for_device(w[1].device)
 
@@ -1613,12 +1655,30 @@ def run_stream_case(ctx, case) -> None:
 
 
 # ===========================================================================
+def avctp_probe(ctx) -> str:
+    """Does the assembler accept a message fragmented by the specification's packet layout?
+
+    If not (F19d) the violation is recorded once from this probe and the generated AVCTP cases use
+    the layout the implementation expects, so that the search continues behind the finding."""
+    probe = {'kind': 'avctp', 'mtu': 48, 'fault': None, 'layout': SPEC_LAYOUT,
+             'msgs': [{'label': 3, 'len': 50, 'seed': 9, 'cr': 0, 'ipid': 0, 'pid': 0x110E, 'chunks': [44, 6]}]}
+    sub = type(ctx)(ctx.prop, ctx.tier, ctx.seed)
+    sub.replaying = True
+    run_avctp_case(sub, probe)
+    if not sub.failures:
+        return SPEC_LAYOUT
+    run_avctp_case(ctx, probe)
+    return LEGACY_LAYOUT
+
+
 def run(ctx) -> None:
     vloop.selftest()
     continuation_limit()
+    layout = avctp_probe(ctx)
+    ctx.extra['avctp_sender_layout'] = layout
     ctx.hyp('sdp', lambda d: run_sdp_case(ctx, sdp_finalize(d)), sdp_strategy(), max_examples=ctx.n(400, 16000))
     ctx.hyp('avdtp', lambda c: run_avdtp_case(ctx, c), av_strategy('avdtp'), max_examples=ctx.n(2000, 200000))
-    ctx.hyp('avctp', lambda c: run_avctp_case(ctx, c), av_strategy('avctp'), max_examples=ctx.n(2000, 200000))
+    ctx.hyp('avctp', lambda c: run_avctp_case(ctx, dict(c, layout=layout)), av_strategy('avctp'), max_examples=ctx.n(2000, 200000))
     ctx.hyp('stream', lambda c: run_stream_case(ctx, c), stream_strategy(), max_examples=ctx.n(300, 8000))
     for label, n in (
         ('sdp:clients:1', 20), ('sdp:clients:2', 10), ('sdp:clients:3', 10),
